@@ -159,6 +159,10 @@ func (C04) Explore(x *kernel.Explorer, seed uint64) {
 			"chunk": int64(r.Intn(4)), "colseed": int64(r.Uint32()), "stranger": int64(r.Intn(2)),
 			"mysql": int64(r.Intn(3) / 2), "depeof": int64(r.Intn(2)), "wyield": int64(r.Intn(2))}}
 		plan.Swarm["ksv2"] = int64(r.Intn(3) / 2)
+		if r.Chance(1, 6) {
+			// one call into the token storage fails with an I/O error
+			plan.Swarm["tokfault"] = int64(1 + r.Intn(12))
+		}
 		if r.Chance(1, 4) {
 			// a key store read fails with an I/O error somewhere in the session
 			plan.Swarm["keyfault"] = int64(1 + r.Intn(40))
@@ -218,7 +222,7 @@ func (C04) Run(t *testing.T, plan *kernel.Plan, keepLog bool) *kernel.Result {
 		rng := kernel.NewRNG(plan.Seed, 0xd04c)
 		cols := drawCols(kernel.NewRNG(uint64(plan.Sw("colseed")), 4), "")
 		pw, err := NewPgWorld(w, rng, PgWorldConfig{SchemaYAML: schemaYAML(cols), Clients: []string{owner, stranger}, ChunkMode: int(plan.Sw("chunk")),
-			KeyFaultNth: int(plan.Sw("keyfault")), KeystoreV2: plan.Sw("ksv2") == 1})
+			KeyFaultNth: int(plan.Sw("keyfault")), KeystoreV2: plan.Sw("ksv2") == 1, TokenFaultNth: int(plan.Sw("tokfault"))})
 		if err != nil {
 			w.Violate("C04", "world-builds", "pg", err.Error())
 			return
@@ -349,6 +353,10 @@ func (C04) Run(t *testing.T, plan *kernel.Plan, keepLog bool) *kernel.Result {
 		if keyFault {
 			w.Res.Fired["keystore-io-error"]++
 		}
+		if pw.TokenFaultFired() {
+			w.Res.Fired["token-store-io-error"]++
+			keyFault = true // same relaxed expectations: statements may fail, nothing may leak
+		}
 		if run.Stuck && !keyFault {
 			w.Violate("C04", "session-makes-progress", "pg", fmt.Sprintf("session stuck after %d deliveries; client error %q; proxy errors %v", run.Steps, run.ClientErr, run.ProxyErrs))
 			return
@@ -358,7 +366,11 @@ func (C04) Run(t *testing.T, plan *kernel.Plan, keepLog bool) *kernel.Result {
 		for _, m := range protectedMarks {
 			for name, enc := range encodings(m) {
 				if bytes.Contains(toDB, enc) {
-					w.Violate("C04", "no-plaintext-to-database", "pg/"+name, fmt.Sprintf("the database-side stream contains protected value %q (%s form)", m, name))
+					site := "pg/" + name
+					if pw.TokenFaultFired() {
+						site = "pg/token-store-fault"
+					}
+					w.Violate("C04", "no-plaintext-to-database", site, fmt.Sprintf("the database-side stream contains protected value %q (%s form)", m, name))
 					break
 				}
 			}
